@@ -31,6 +31,12 @@ try:
         print("SENS %s %s exit=%d" % (name, prop, r.returncode))
         for l in lines[:8] + [l for l in lines[8:] if l.startswith("HARNESS")][:4]:
             print("   " + l[:300])
+        if r.returncode == 1 and os.environ.get("SENS_KEEP"):   # keep the shrunk replay plans (tools/revert_sweep.py turns them into regression plans)
+            rd0 = base + "/out/replays/" + prop
+            if os.path.isdir(rd0):
+                os.makedirs(os.environ["SENS_KEEP"], exist_ok=True)
+                for f in sorted(os.listdir(rd0)):
+                    shutil.copy2(os.path.join(rd0, f), os.path.join(os.environ["SENS_KEEP"], "%s__%s__%s" % (name, prop, f)))
         if r.returncode == 1:
             rd = base + "/out/replays/" + prop
             if os.path.isdir(rd):
